@@ -68,7 +68,68 @@ def commb_frame(rng, addr, kind):
     return gen.with_parity(d, addr)
 
 
+def vel_frame(rng, addr, va, vo, a):
+    """genuine TC19 subtype-1 ground-speed squitter for a velocity of (va, vo) BAM24 per half second at latitude a"""
+    import math
+    kn = 2 * va * 360.0 / (1 << 24) * 60 * 3600                                      # kt northwards
+    ke = 2 * vo * 360.0 / (1 << 24) * 60 * 3600 * math.cos(math.radians(a * 360.0 / (1 << 24)))
+    f = [(17 << 3) | 5, addr >> 16, (addr >> 8) & 255, addr & 255] + [0] * 7 + [0, 0, 0]
+    f = gen.set_bits(f, 33, 37, 19)
+    f = gen.set_bits(f, 38, 40, 1)
+    f = gen.set_bits(f, 46, 46, 1 if ke < 0 else 0)
+    f = gen.set_bits(f, 47, 56, min(1023, int(round(abs(ke))) + 1))
+    f = gen.set_bits(f, 57, 57, 1 if kn < 0 else 0)
+    f = gen.set_bits(f, 58, 67, min(1023, int(round(abs(kn))) + 1))
+    f = gen.set_bits(f, 70, 78, rng.randrange(1, 200))
+    return gen.with_parity(f[:11])
+
+
+def long_gap(ctx, rng, k):
+    """a flight as a receiver at the edge of coverage sees it: positions and ground speed while slow, then only identification /
+    status squitters (every < 60 s, so the aircraft stays listed) for 15 to 45 minutes while it accelerates and flies on, then
+    positions again.  The reference from before the gap is hundreds of miles stale; nothing but its age says so."""
+    a = rng.randrange(-2800000, 2800000)
+    o = rng.randrange(-(1 << 23), 1 << 23)
+    addr = rng.randrange(1, 1 << 24)
+    ang = rng.random() * 6.283185
+    import math
+    slow, fast = rng.randrange(4, 15), rng.randrange(48, 64)          # BAM24 per half second: 40-140 kt, 450-590 kt
+    v1 = (int(slow * math.cos(ang)), int(slow * math.sin(ang)))
+    v2 = (int(fast * math.cos(ang)), int(fast * math.sin(ang)))
+    rx = [1, cprpy_rx(a), cprpy_rx(o)] if rng.random() < 0.85 else [0, 0, 0]
+    now = 2000 + rng.randrange(1000)
+    script = []
+    oe = rng.randrange(2)
+
+    def call(adsb):
+        script.append({"tnow": now, "adsb": adsb, "commb": []})
+
+    for step in range(rng.randint(6, 10)):
+        dt = rng.choice([1, 2, 3, 4])
+        now += dt
+        a, o = a + v1[0] * dt, wrap(o + v1[1] * dt)
+        oe = 1 - oe
+        msgs = [{"f": pos_frame(rng, addr, "air", a, o, oe), "t": now, "g": 1, "a": a, "o": o}]
+        if step % 2:
+            msgs.append({"f": vel_frame(rng, addr, v1[0], v1[1], a), "t": now, "g": 0, "a": 0, "o": 0})
+        call(msgs)
+    for step in range(rng.randint(18, 48)):
+        dt = rng.choice([40, 50, 55, 58]) * 2
+        now += dt
+        a, o = max(-3600000, min(3600000, a + v2[0] * dt)), wrap(o + v2[1] * dt)
+        call([{"f": es_frame(rng, addr, rng.choice([1, 2, 3, 4, 28, 29, 31, 23, 0])), "t": now, "g": 0, "a": 0, "o": 0}])
+    for step in range(rng.randint(4, 7)):
+        dt = rng.choice([1, 2, 3])
+        now += dt
+        a, o = max(-3600000, min(3600000, a + v2[0] * dt)), wrap(o + v2[1] * dt)
+        oe = 1 - oe
+        call([{"f": pos_frame(rng, addr, "air", a, o, oe), "t": now, "g": 1, "a": a, "o": o}])
+    return {"fn": "tracker.run", "rx": rx, "script": script, "lower": rng.choice([0, 0, 1, 2])}
+
+
 def history(ctx, rng, k):
+    if k % 8 == 5:
+        return long_gap(ctx, rng, k)
     place = PLACES[k % len(PLACES)] if k % 3 else (rng.randrange(-3600000, 3600000), rng.randrange(-(1 << 23), 1 << 23))
     nac = rng.randint(2, 4)
     acs = []
